@@ -473,7 +473,8 @@ func runC06(c *eng.Ctx) {
 			}
 		})
 	}
-	c.Floor(12)
+	ruleEpochStamping(c)
+	c.Floor(19)
 
 	// ---- R06.7 acquire/release pairing
 	c.Rule("R06.7", "K2")
